@@ -19,6 +19,7 @@
 import Nq.Lemmas.LocalDeliverMd
 import Nq.Lemmas.LocalDeliverMb
 import Nq.Lemmas.LocalDeliverMbox
+import Nq.Lemmas.LocalDeliverDate
 
 namespace Nq.Props.C12
 open Nq Nq.LocalDeliver Nq.Mbox
@@ -80,9 +81,9 @@ reported as success. -/
 theorem C12_maildir_exit_map (c : Nat) : (parentCode c = 0 ↔ c = 0) ∧ (parentCode c = 0 ∨ parentCode c = 111) :=
   ⟨parentCode_zero c, parentCode_cases c⟩
 
-/-- **The protocol order**: the first event of a delivery that makes new/ non-empty is a successful
-`link`, and it is accepted only at the control point reached through open_excl, complete writes,
-fsync and close. -/
+/-- **Only `link` populates new/**: an accepted event that makes new/ non-empty is a successful `link`
+issued at the control point `linking`.  (This restates the guard of `Md.accept` and `Md.apply`; what
+must have happened before that control point is reached is `C12_maildir_link_reach`.) -/
 theorem C12_maildir_link_only (p : Md.Params) (s s' : Md.St) (e : Md.Ev) (fs : Md.FS) (h : Md.accept p s e = some s')
     (h0 : fs.newName = false) (h1 : (Md.apply fs e).newName = true) : e = .link true ∧ s.pc = .linking := by
   cases e with
@@ -99,6 +100,15 @@ theorem C12_maildir_link_only (p : Md.Params) (s s' : Md.St) (e : Md.Ev) (fs : M
   | unlinkTmp ok => cases ok <;> simp [Md.apply, h0] at h1
   | write bs => simp [Md.apply, h0] at h1
   | _ => simp [Md.apply, h0] at h1
+
+/-- **Reachability of the link** (inductive, over all accepted traces): in any run whose last event is
+a successful `link`, the events before it leave this delivery's file named in tmp/ (a successful
+`open_excl`), nothing in new/, the writes since that `open_excl` concatenating to exactly
+Return-Path line + Delivered-To line + message, a successful `fsync` after the last write, and the
+event immediately before the `link` is the successful `close`. -/
+theorem C12_maildir_link_reach (p : Md.Params) (evs : List Md.Ev) (s : Md.St) (h : MdRun p (evs ++ [.link true]) s) :
+    (Md.applyAll {} evs).tmpName = true ∧ (Md.applyAll {} evs).newName = false ∧ (Md.applyAll {} evs).cur = p.content ∧
+    (Md.applyAll {} evs).synced = true ∧ evs.getLast? = some (.close true) := link_reach p evs s h
 
 /-- **Names**: the name `time.pid.host` used under tmp/ and new/ determines the second and the
 process id of the delivering child.  Two deliveries on one host that use the same name therefore
@@ -128,6 +138,17 @@ theorem C12_headers (sender loc host : Bytes) (t : Nat) :
     envSender (ufline sender t) = ufSender sender ∧ (∀ c ∈ ufSender sender, c ≠ SP ∧ c ≠ TAB ∧ c ≠ LF) :=
   ⟨rpline_single sender, dtline_single loc host, ufline_single sender t, ufline_from sender t, rpline_gfrom sender,
    dtline_gfrom loc host, ufline_sender sender t, ufSender_clean sender⟩
+
+/-- **The date has exactly 24 characters** (mbox(5): "It always contains exactly 24 characters in
+asctime format"), for every instant from 1970-01-01 00:00:00 to 9999-12-31 23:59:59 (later years need
+five digits): weekday and month indices are in range of the name tables, the other fields have two
+resp. four digits — from the Gregorian-calendar theorem for `datetime_tai` (`Nq/Lemmas/Datetime.lean`,
+read-only).  So the From_ line is "From " word " " 24 characters LF. -/
+theorem C12_date_24 (sender : Bytes) (t : Nat) (ht : t < 253402300800) :
+    (myctime t).length = 25 ∧ (ufline sender t).length = 5 + (ufSender sender).length + 1 + 24 + 1 := by
+  have h := Nq.Lemmas.LD.Date.myctime_length t ht
+  refine ⟨h, ?_⟩
+  simp [ufline, uflinePrefix_eq, h, fromSp]; omega
 
 /-- **gfrom.c is the documented test**: `>` is prepended exactly to From_, >From_, >>From_, … lines. -/
 theorem C12_gfrom (l : Bytes) : gfrom l = (isFromLine l || isQuoted l) := gfrom_spec l
@@ -214,6 +235,8 @@ theorem C12_mbox_serial (entry : Nat → Bytes) (box : Bytes) (tr : List (Nat ×
   have := hinv.held i hi
   unfold HolderInv at this
   split at this
+  · exact ⟨_, this.1⟩
+  · exact ⟨_, this.1⟩
   · exact ⟨_, this.1⟩
   · exact ⟨_, this.1⟩
   · exact ⟨_, this.1⟩
@@ -310,6 +333,73 @@ theorem C12_mbox_append (entry : Nat → Bytes) (box : Bytes) (tr : List (Nat ×
   have := hinv.free hfree
   simpa [hord, base] using this
 
+/-- **A failure is reported as temporary**: once `mailfile()` has been entered (open_append attempted),
+qmail-local exits 0 or 111 — in every interleaving, whatever fails (no `Benign` hypothesis). -/
+theorem C12_mbox_exit_codes (entry : Nat → Bytes) (box : Bytes) (tr : List (Nat × Mb.Ev)) (y : Mb.Sys)
+    (h : MbRun entry box tr y) (i c : Nat) (hx : (y.st i).pc = .done c) (ho : (y.st i).opened = true) : c = 0 ∨ c = 111 := by
+  have hp := pinv_run entry tr _ y (fun j => pinv_init (entry j)) h i
+  exact hp.2.1 c hx ho
+
+/-- **Exit 0 iff the entry was appended and synced** (no `Benign` hypothesis): `synced` is set by
+exactly one event, an accepted successful `fsync`, which the program may issue only when everything
+it wrote is the complete entry; a delivery that has exited reported 0 iff that happened. -/
+theorem C12_mbox_exit_zero_iff (entry : Nat → Bytes) (box : Bytes) (tr : List (Nat × Mb.Ev)) (y : Mb.Sys)
+    (h : MbRun entry box tr y) (i c : Nat) (hx : (y.st i).pc = .done c) :
+    (c = 0 ↔ (y.st i).synced = true) ∧ ((y.st i).synced = true → (y.st i).written = entry i) := by
+  have hp := pinv_run entry tr _ y (fun j => pinv_init (entry j)) h i
+  obtain ⟨_, _, _, h4, h5⟩ := hp
+  refine ⟨?_, h5⟩
+  rw [h4, hx]
+  cases c with
+  | zero => simp [Committed]
+  | succ k => simp [Committed]
+
+/-- the only event that sets `synced`: a successful fsync at the end of the copy with the complete entry written -/
+theorem C12_mbox_synced_by_fsync (entry : Bytes) (s s' : Mb.St) (e : Mb.Ev) (h : Mb.accept entry s e = some s')
+    (h0 : s.synced = false) (h1 : s'.synced = true) : e = .fsync true ∧ s.pc = .copy ∧ s.eof = true ∧ s.written = entry := by
+  cases e with
+  | fsync ok =>
+    simp only [Mb.accept] at h; split at h
+    · rename_i hp
+      cases ok with
+      | true => exact ⟨rfl, hp⟩
+      | false => simp at h; subst h; unfold Mb.failFrom at h1; split at h1 <;> simp [h0] at h1
+    · cases h
+  | openAppend ok => simp only [Mb.accept] at h; split at h <;> cases h; simp [h0] at h1
+  | alarm n =>
+    simp only [Mb.accept] at h; split at h
+    · cases h; simp [h0] at h1
+    · split at h <;> cases h; simp [h0] at h1
+  | flock ok => simp only [Mb.accept] at h; split at h <;> cases h; simp [h0] at h1
+  | seekEnd n => simp only [Mb.accept] at h; split at h <;> cases h; simp [h0] at h1
+  | seekCur n => simp only [Mb.accept] at h; split at h <;> cases h; simp [h0] at h1
+  | read n => simp only [Mb.accept] at h; split at h <;> cases h; simp [h0] at h1
+  | readErr intr =>
+    simp only [Mb.accept] at h; split at h
+    · cases intr <;> simp at h <;> subst h
+      · unfold Mb.failFrom at h1; split at h1 <;> simp [h0] at h1
+      · simp [h0] at h1
+    · cases h
+  | write bs => simp only [Mb.accept] at h; split at h <;> cases h; simp [h0] at h1
+  | writeErr intr =>
+    simp only [Mb.accept] at h; split at h
+    · cases intr <;> simp at h <;> subst h
+      · unfold Mb.failFrom at h1; split at h1 <;> simp [h0] at h1
+      · simp [h0] at h1
+    · cases h
+  | ftrunc len ok => simp only [Mb.accept] at h; split at h <;> cases h; simp [h0] at h1
+  | close =>
+    simp only [Mb.accept] at h; split at h
+    · cases h; simp [h0] at h1
+    · split at h <;> cases h; simp [h0] at h1
+  | sigAlarm => simp only [Mb.accept] at h; split at h <;> cases h; simp [h0] at h1
+  | exit code =>
+    simp only [Mb.accept] at h; split at h
+    · split at h <;> cases h; simp [h0] at h1
+    · split at h <;> cases h; simp [h0] at h1
+    · split at h <;> cases h; simp [h0] at h1
+    · cases h
+
 /-- **The unlocked case, stated, not hidden**: `ftruncate` is issued only by a delivery that holds
 the lock, and always to the length the file had when the lock was taken; a delivery whose `lock_ex`
 failed never truncates (and then neither roll-back nor serialisation is claimed). -/
@@ -344,20 +434,28 @@ example : Md.acceptAll { content := [82, 10] } {}
 
 /-- two interleaved mbox deliveries: the second blocks until the first has closed -/
 example : (Mb.sysRun (fun i => if i = 0 then [70, 10, 10] else [71, 10, 10]) { file := [] }
-    [(0, .openAppend true), (1, .openAppend true), (0, .alarm 30), (1, .alarm 30), (0, .flock true 0), (0, .alarm 0),
-     (0, .read 0), (0, .write [70, 10]), (0, .write [10]), (0, .fsync true), (0, .close), (1, .flock true 3), (0, .exit 0),
-     (1, .alarm 0), (1, .read 0), (1, .write [71, 10, 10]), (1, .fsync true), (1, .close), (1, .exit 0)]).map (·.file)
+    [(0, .openAppend true), (1, .openAppend true), (0, .alarm 30), (1, .alarm 30), (0, .flock true), (0, .alarm 0), (0, .seekEnd 0), (0, .seekCur 0),
+     (0, .read 0), (0, .write [70, 10]), (0, .write [10]), (0, .fsync true), (0, .close), (1, .flock true), (0, .exit 0),
+     (1, .alarm 0), (1, .seekEnd 3), (1, .seekCur 3), (1, .read 0), (1, .write [71, 10, 10]), (1, .fsync true), (1, .close), (1, .exit 0)]).map (·.file)
     = some [70, 10, 10, 71, 10, 10] := by decide
 
 /-- taking the lock while another delivery holds it is not possible -/
 example : (Mb.sysRun (fun _ => [70, 10, 10]) { file := [] }
-    [(0, .openAppend true), (1, .openAppend true), (0, .alarm 30), (1, .alarm 30), (0, .flock true 0), (1, .flock true 0)]).isNone = true := by
+    [(0, .openAppend true), (1, .openAppend true), (0, .alarm 30), (1, .alarm 30), (0, .flock true), (1, .flock true)]).isNone = true := by
   decide
 
 /-- a write error under the lock: truncation to the old length, exit 111 -/
 example : (Mb.sysRun (fun _ => [70, 10, 10]) { file := [1, 10] }
-    [(0, .openAppend true), (0, .alarm 30), (0, .flock true 2), (0, .alarm 0), (0, .read 0), (0, .write [70]), (0, .writeErr false),
+    [(0, .openAppend true), (0, .alarm 30), (0, .flock true), (0, .alarm 0), (0, .seekEnd 2), (0, .seekCur 2), (0, .read 0), (0, .write [70]), (0, .writeErr false),
      (0, .ftrunc 2 true), (0, .close), (0, .exit 111)]).map (·.file) = some [1, 10] := by decide
+
+/-- a roll-back position recorded before the lock is held (seek before flock) is not a run of this program -/
+example : (Mb.sysRun (fun _ => [70, 10, 10]) { file := [1, 10] }
+    [(0, .openAppend true), (0, .seekEnd 2)]).isNone = true := by decide
+
+/-- `seek_end` must return the length the file has at that moment -/
+example : (Mb.sysRun (fun _ => [70, 10, 10]) { file := [1, 10] }
+    [(0, .openAppend true), (0, .alarm 30), (0, .flock true), (0, .alarm 0), (0, .seekEnd 0)]).isNone = true := by decide
 
 /-- the reader on a concrete entry: "From x\n" in the body is quoted and unquoted again -/
 example : mboxRead (mboxEntry [70, 114, 111, 109, 32, 97, 32, 100, 10] [82, 58, 10] [68, 58, 10] [70, 114, 111, 109, 32, 120, 10, 122])
